@@ -358,3 +358,124 @@ def unroll_literal_loops(fn: ast.AST) -> bool:
     if changed:
         ast.fix_missing_locations(fn)
     return changed
+
+
+# ---------------------------------------------------------------------------
+# if / elif chains that dispatch on one subject  ->  match statement
+
+
+def _chain(s: ast.If):
+    """[(test, body)], else_body for an if/elif/.../else chain"""
+    arms = []
+    cur = s
+    while True:
+        arms.append((cur.test, cur.body))
+        if len(cur.orelse) == 1 and isinstance(cur.orelse[0], ast.If):
+            cur = cur.orelse[0]
+            continue
+        return arms, cur.orelse
+
+
+def _class_pattern(t):
+    if isinstance(t, (ast.Name, ast.Attribute)):
+        return ast.MatchClass(t, [], [], [])
+    if isinstance(t, ast.Tuple) and t.elts and all(isinstance(x, (ast.Name, ast.Attribute)) for x in t.elts):
+        return ast.MatchOr([ast.MatchClass(x, [], [], []) for x in t.elts])
+    return None
+
+
+def _value_pattern(v):
+    if isinstance(v, ast.Constant) and isinstance(v.value, (str, int, bytes)) and not isinstance(v.value, bool):
+        return ast.MatchValue(v)
+    if isinstance(v, ast.Constant) and v.value is None:
+        return ast.MatchSingleton(None)
+    if isinstance(v, ast.Attribute):  # dotted names are value patterns (Enum.Member)
+        return ast.MatchValue(v)
+    return None
+
+
+def _arm_pattern(test):
+    """(subject_text, subject_node, pattern) for `isinstance(S, T)`, `S == C`, `S in (C1, C2)`; else None"""
+    if isinstance(test, ast.Call) and isinstance(test.func, ast.Name) and test.func.id == "isinstance" and len(test.args) == 2 and not test.keywords:
+        p = _class_pattern(test.args[1])
+        if p is not None:
+            return ast.unparse(test.args[0]), test.args[0], p, "class"
+    if isinstance(test, ast.Compare) and len(test.ops) == 1:
+        l, r = test.left, test.comparators[0]
+        if isinstance(test.ops[0], ast.Eq):
+            p = _value_pattern(r)
+            if p is not None and not isinstance(p, ast.MatchSingleton):
+                return ast.unparse(l), l, p, "value"
+        if isinstance(test.ops[0], ast.In) and isinstance(r, (ast.Tuple, ast.List, ast.Set)) and r.elts:
+            ps = [_value_pattern(x) for x in r.elts]
+            if all(p is not None and not isinstance(p, ast.MatchSingleton) for p in ps):
+                return ast.unparse(l), l, ast.MatchOr(ps) if len(ps) > 1 else ps[0], "value"
+    return None
+
+
+def might_matchify(node: ast.AST) -> bool:
+    for n in ast.walk(node):
+        if isinstance(n, ast.If) and len(n.orelse) == 1 and isinstance(n.orelse[0], ast.If) and _arm_pattern(n.test) is not None:
+            return True
+    return False
+
+
+def matchify(fn: ast.AST) -> bool:
+    """if/elif chains (>= 2 tested arms) that test one side-effect-free subject by isinstance / == const / in (consts)
+    become `match subject:` with class / value patterns; a final else becomes `case _`."""
+    changed = False
+
+    def convert(s: ast.If):
+        arms, els = _chain(s)
+        if len(arms) < 2:
+            return None
+        pats = []
+        subj = None
+        kinds = set()
+        for test, body in arms:
+            ap = _arm_pattern(test)
+            if ap is None:
+                return None
+            txt, node, pat, kind = ap
+            if subj is None:
+                subj = (txt, node)
+            elif subj[0] != txt:
+                return None
+            kinds.add(kind)
+            pats.append((pat, body))
+        if len(kinds) != 1:
+            return None
+        if not isinstance(subj[1], (ast.Name, ast.Attribute)) and not (
+                isinstance(subj[1], ast.Call) and isinstance(subj[1].func, ast.Attribute) and subj[1].func.attr in ("lower", "upper", "strip", "casefold") and not subj[1].args):
+            return None
+        # arms must not rebind the subject before a later test could see it: each arm body runs after its own test only - fine
+        cases = [ast.match_case(p, None, list(b)) for p, b in pats]
+        if els:
+            cases.append(ast.match_case(ast.MatchAs(None, None), None, list(els)))
+        m = ast.Match(subj[1], cases)
+        return ast.copy_location(m, s)
+
+    def rewrite(blk):
+        nonlocal changed
+        for i, s in enumerate(blk):
+            if isinstance(s, ast.If):
+                m = convert(s)
+                if m is not None:
+                    blk[i] = m
+                    s = m
+                    changed = True
+            for fld in ("body", "orelse", "finalbody"):
+                b = getattr(s, fld, None)
+                if isinstance(b, list) and b and isinstance(b[0], ast.stmt) and not isinstance(s, (ast.FunctionDef, ast.AsyncFunctionDef, ast.ClassDef)):
+                    rewrite(b)
+            if isinstance(s, ast.Try):
+                for h in s.handlers:
+                    rewrite(h.body)
+            if isinstance(s, ast.Match):
+                for c in s.cases:
+                    rewrite(c.body)
+
+    rewrite(fn.body)
+    if changed:
+        ast.fix_missing_locations(fn)
+    return changed
